@@ -90,8 +90,11 @@ impl Http2FingerprintExtractor {
             match self.parser.parse_frames_with_offset(frame_data) {
                 Ok((frames, bytes_consumed)) => {
                     if !frames.is_empty() {
-                        // Update parsed_offset based on actual bytes consumed
-                        self.parsed_offset = start_offset.saturating_add(bytes_consumed);
+                        // Keep every frame seen so far in scope until the fingerprint is produced:
+                        // a WINDOW_UPDATE or PRIORITY frame that arrived in an earlier chunk than
+                        // the SETTINGS frame is part of the fingerprint. Only the preface is skipped.
+                        let _ = bytes_consumed;
+                        self.parsed_offset = start_offset;
 
                         if let Some(fingerprint) = extract_akamai_fingerprint(&frames) {
                             self.fingerprint = Some(fingerprint.clone());
